@@ -115,16 +115,36 @@ func replayHistory(property, fullSig string, payload json.RawMessage) int {
 			return 2
 		}
 		var w *world.World
+		c := explore.NewCtx(env, prof)
+		construction := strings.HasSuffix(hr.Seed, " (construction)")
 		for _, s := range prof.Seeds(env) {
 			if s.Name == hr.Seed {
 				w = s.W
+			}
+			if construction && s.Name+" (construction)" == hr.Seed {
+				// the violation was observed while the seed state was being built: re-run the oracles
+				// on the construction legs
+				w = s.W
+				c.SetPosition(hr.Seed, nil, nil)
+				for _, l := range s.Legs {
+					if run == 0 {
+						fmt.Println(describeLeg(l))
+					}
+					for _, o := range prof.Oracles {
+						o.Leg(c, l)
+					}
+					if l.Post != nil && l.Post != l.Pre {
+						for _, o := range prof.Oracles {
+							o.State(c, l.Post)
+						}
+					}
+				}
 			}
 		}
 		if w == nil {
 			fmt.Printf("seed %s not found\n", hr.Seed)
 			return 2
 		}
-		c := explore.NewCtx(env, prof)
 		var hist []world.Action
 		if run == 0 {
 			fmt.Printf("  seed %s: %s\n", hr.Seed, spec.FmtDelta(spec.Balances(w), uni.Name))
